@@ -397,6 +397,11 @@ def dbg_shape(col, pid, rng, n, edges):
     if rng.random() < 0.5:
         t = rng.randrange(n)
         ops.append(("setup", {"target_nodes": [ids[t]]}, None))
+    if rng.random() < 0.6:
+        # the cache-filling executor mode is an execution mode too: cache_deps_of naming a debug or a production node
+        pool_ = sorted(debug) if debug and rng.random() < 0.7 else list(range(n))
+        ops.append(("executor", {"cache_deps_of": [ids[rng.choice(pool_)]]}, None))
+        col.counters["c13_cache_deps_of_operations"] += 1
     old = cfg.RUN_DEBUG_NODES
     try:
         for op, kw, triple in ops:
